@@ -54,6 +54,7 @@ fn main() {
     "C09" => dispatch!(props::c09::C09),
     "C10" => dispatch!(props::c10::C10),
     "C11" => dispatch!(props::c11::C11),
+    "C12" => dispatch!(props::c12::C12),
     "C13" => dispatch!(props::c13::C13),
     "C14" => dispatch!(props::c14::C14),
     "C15" => dispatch!(props::c15::C15),
